@@ -377,14 +377,14 @@ Proof.
     { rewrite L. split; (eapply Forall_impl; [|eassumption]); intros p [Lp _]; exact Lp. }
     destruct (apply_spec a x Hc W Hok) as (a' & y & Eg & Hc' & S & Ly & Hy). rewrite Eg.
     intros _. destruct S as (P & Nn & Rr & B). rewrite P, Nn, Rr, B.
-    split; [congruence|]. split; [|split; [auto|split; [auto|split; [auto|split; auto]]]].
+    split; [exact (eq_trans Ly L)|]. split; [|split; [auto|split; [auto|split; [auto|split; auto]]]].
     unfold in_range. apply Forall_forall. intros v Hv.
     destruct (In_nth y v 0 Hv) as (j & Hj & <-). rewrite Ly in Hj. rewrite (Hy j Hj).
     assert (Hxj : mn <= nth j x 0 <= mx).
     { unfold in_range in Hx. rewrite Forall_forall in Hx. apply Hx, nth_In, Hj. }
-    rewrite L in Hj.
-    pose proof (rcol_unit (ared RN a) (apos RN a) j Hh Hcap Hp Hj) as Rp.
-    pose proof (rcol_unit (ared RN a) (aneg RN a) j Hh Hcap Hn Hj) as Rn.
+    assert (Hj' : (j < len)%nat) by (rewrite <- L; exact Hj).
+    pose proof (rcol_unit (ared RN a) (apos RN a) j Hh Hcap Hp Hj') as Rp.
+    pose proof (rcol_unit (ared RN a) (aneg RN a) j Hh Hcap Hn Hj') as Rn.
     pose proof (range_bind_step _ _ _ _ Hb Hxj Rp Rn) as Hs.
     destruct (apos RN a), (aneg RN a); try exact Hs. exact Hxj.
   - intros E. destruct (H E) as (L & Hx & Hb & Hh & Hp & Hn & Hc).
@@ -446,15 +446,15 @@ Proof.
 Qed.
 
 (* how the invariant is established: a fresh updater with a hull-preserving reduction, then fullbound *)
-Lemma range_setup ps x g k :
+Lemma range_setup (ps : list (Z * tensorW)) (x : tensorW) g k :
   lookup target ps = Some x -> length x = len -> in_range x -> red_hull g ->
   range_bind (BFull RN k (Some mx) (Some mn)) ->
   holds Irange (run RN (mkWorld RN ps None)
                   [OpNewUpdater RN [target] (Some g); OpFull RN target (Some k) (Some mx) (Some mn)]).
 Proof.
-  intros Ex L Hx Hg Hb. cbn [run step fst forallb]. rewrite Ex. cbn [andb fst map].
-  unfold on_acc, find_acc. cbn [upd lookup]. rewrite Z.eqb_refl. cbn [fst put_acc replace params].
-  rewrite Z.eqb_refl. intros us E. cbn in E. injection E as <-.
+  intros Ex L Hx Hg Hb. cbn [run step fst forallb params]. rewrite Ex. cbn [andb fst map params].
+  unfold on_acc, find_acc. cbn [upd lookup]. rewrite Z.eqb_refl. cbn [fst].
+  unfold put_acc. cbn [replace params]. rewrite Z.eqb_refl. intros us E. cbn in E. injection E as <-.
   intros nm y a Hy Ha. cbn in Hy, Ha. destruct (Z.eqb nm target) eqn:En; [|discriminate].
   injection Ha as <-. apply Z.eqb_eq in En. subst nm. rewrite Ex in Hy. injection Hy as <-.
   intros _. isplit; cbn; auto. split; cbn; auto.
@@ -462,7 +462,7 @@ Qed.
 End Range.
 
 (* the property's sentence, end to end: configure, then ANY admissible history, then look at the parameter *)
-Theorem stays_in_range_forever target mx mn cap ps x g k ops us a y :
+Theorem stays_in_range_forever target mx mn cap (ps : list (Z * tensorW)) (x : tensorW) g k ops us a (y : tensorW) :
   lookup target ps = Some x -> in_range mx mn x -> red_hull g ->
   range_bind mx mn cap (BFull RN k (Some mx) (Some mn)) ->
   Forall (good_op target (length x) mx mn cap) ops ->
@@ -481,7 +481,7 @@ Proof.
 Qed.
 
 (* the three dependences named by the property *)
-Corollary multiplicative_stays_in_range target mx mn ps x g ops us a y :
+Corollary multiplicative_stays_in_range target mx mn (ps : list (Z * tensorW)) (x : tensorW) g ops us a (y : tensorW) :
   mn <= mx -> lookup target ps = Some x -> in_range mx mn x -> red_hull g ->
   Forall (good_op target (length x) mx mn 1) ops ->
   let w := run RN (mkWorld RN ps None)
@@ -493,7 +493,7 @@ Proof.
   eapply (stays_in_range_forever target mx mn 1 ps x g (FMul RN) ops us a y); eauto.
   left. auto.
 Qed.
-Corollary scaled_multiplicative_stays_in_range target mx mn ps x g ops us a y :
+Corollary scaled_multiplicative_stays_in_range target mx mn (ps : list (Z * tensorW)) (x : tensorW) g ops us a (y : tensorW) :
   mn < mx -> lookup target ps = Some x -> in_range mx mn x -> red_hull g ->
   Forall (good_op target (length x) mx mn (mx - mn)) ops ->
   let w := run RN (mkWorld RN ps None)
@@ -505,7 +505,7 @@ Proof.
   eapply (stays_in_range_forever target mx mn (mx - mn) ps x g (FSMul RN) ops us a y); eauto.
   right. left. auto.
 Qed.
-Corollary scaled_power_stays_in_range target mx mn up lp ps x g ops us a y :
+Corollary scaled_power_stays_in_range target mx mn up lp (ps : list (Z * tensorW)) (x : tensorW) g ops us a (y : tensorW) :
   mn < mx -> 1 <= up -> 1 <= lp -> lookup target ps = Some x -> in_range mx mn x -> red_hull g ->
   Forall (good_op target (length x) mx mn (mx - mn)) ops ->
   let w := run RN (mkWorld RN ps None)
